@@ -19,21 +19,21 @@ DEFAULT_PROFILE = dict(
   p_connect=0.3, p_lambda=0.12, max_block_targets=3,
   expr_depth=3, p_if=0.4, p_for=0.25, p_tmp=0.2, p_free=0.15,
   p_big_width=0.04, p_reset_in_ff=0.5, translatable=False,
-  p_var_index=0.2, min_blocks=0, p_read_own=0.05, yosys=False, p_sub2d=0.0,
+  p_var_index=0.2, min_blocks=0, p_read_own=0.05, yosys=False, p_sub2d=0.0, p_func=0.0,
 )
 
 
 def profile(name):
   p = dict(DEFAULT_PROFILE)
   if name == "acyclic":
-    p.update(p_sub2d=0.1)
+    p.update(p_sub2d=0.1, p_func=0.05)
   elif name == "ff_heavy":
-    p.update(p_reg=0.75, n_wire=(2, 7), p_connect=0.25)
+    p.update(p_reg=0.75, n_wire=(2, 7), p_connect=0.25, p_func=0.05)
   elif name == "big":
     p.update(n_wire=(10, 18), n_out=(2, 4), n_in=(2, 5), p_connect=0.1, p_lambda=0.05,
              max_block_targets=1, p_if=0.9, p_split=0.5, n_child_classes=(0, 1))
   elif name == "shapes":
-    p.update(p_split=0.8, p_struct=0.6, n_structs=(1, 2), p_connect=0.4, n_wire=(3, 7), p_sub2d=0.1)
+    p.update(p_split=0.8, p_struct=0.6, n_structs=(1, 2), p_connect=0.4, n_wire=(3, 7), p_sub2d=0.1, p_func=0.05)
   elif name == "translatable":
     p.update(translatable=True, p_big_width=0.0, p_sub2d=0.2)
   elif name == "translatable_yosys":
@@ -103,6 +103,7 @@ class CompGen:
     self.frees = []
     self.items = []
     self.atoms = []          # readable atoms
+    self.funcs = []          # @s.func helpers (value-returning), in definition order
     self.pending_child = {}  # child instance path-key -> set of undriven in-port piece ids
     self.child_outs = {}     # child instance key -> list of Atom to release
     self.nblk = 0
@@ -228,6 +229,9 @@ class CompGen:
     c = self.c
     cands = [a for a in self.atoms if a.w == w and isinstance(a.t, int)]
     tmps = [n for n, tw in env.get("tmps", {}).items() if tw == w]
+    pars = [n for n, pw in env.get("params", {}).items() if pw == w]
+    if pars and c.random() < 0.4:
+      return ["param", c.choice(pars), w]
     r = c.random()
     if tmps and r < 0.25:
       n = c.choice(tmps)
@@ -383,8 +387,30 @@ class CompGen:
       return e
     return ["trunc", e, w] if a.w > w else ["zext", e, w]
 
+  def get_func(self, w, env):
+    """an existing helper of width w, or a new one that reads what is readable now (every later caller
+    can read at least that, so the block graph stays acyclic); helpers may call earlier helpers"""
+    c = self.c
+    have = [f for f in self.funcs if f["w"] == w]
+    if have and (c.random() < 0.6 or len(self.funcs) >= 4):
+      return c.choice(have)
+    if len(self.funcs) >= 4 or env.get("fdepth", 0) >= 2:
+      return None
+    params = [["p%d" % j, c.choice([1, 4, 8, w])] for j in range(c.randint(0, 2))]
+    fenv = {"tmps": {}, "params": {n: pw for n, pw in params}, "fdepth": env.get("fdepth", 0) + 1}
+    ret = self._expr(w, 2, fenv)
+    if not any(x[0] == "rd" for x in walk_exprs(ret)):
+      ret = ["bin", "xor", ret, self.leaf_nonconst(w, {"tmps": {}})]
+    fn = {"name": "fn%d" % len(self.funcs), "params": params, "ret": ret, "w": w}
+    self.funcs.append(fn)
+    return fn
+
   def _expr(self, w, depth, env):
     c, P = self.c, self.P
+    if P.get("p_func") and not env.get("nofunc") and c.random() < P["p_func"]:
+      fn = self.get_func(w, env)
+      if fn is not None:
+        return ["fcall", fn["name"], [self._expr(pw, 1, env) for _, pw in fn["params"]], w]
     if depth <= 0 or c.random() < 0.25:
       return self.leaf(w, env)
     r = c.random()
@@ -486,8 +512,12 @@ class CompGen:
         w = c.choice(WIDTHS[:14])
         name = "t%d" % self.ntmp
         self.ntmp += 1
-        stmts.append(["tmp", name, self.expr(w, 2, env)])
+        st = ["tmp", name, self.expr(w, 2, env)]
         env["tmps"][name] = w
+        if c.random() < 0.25:       # chained assignment to two temporaries
+          st.append([name + "b"])
+          env["tmps"][name + "b"] = w
+        stmts.append(st)
     own_driven = []
     for (path, t) in targets:
       use_if = c.random() < P["p_if"]
@@ -758,7 +788,7 @@ class CompGen:
           made = True
       elif r < P["p_connect"] + P["p_lambda"] and isinstance(pc["t"], int) and \
            floordiv_ok(pc["path"], len(pc["whole"][0])):
-        e = self.expr(w, 2, {})
+        e = self.expr(w, 2, {"nofunc": True})
         # a lambda that never mentions `s` has no closure for the generated block (NameError in pymtl3)
         if any(x[0] == "rd" for x in walk_exprs(e)):
           self.items.append({"k": "lambda", "t": pc["path"], "e": e})
@@ -803,6 +833,18 @@ class CompGen:
       stmts = []
       env = {"tmps": {}}
       body = []
+      if c.random() < P["p_tmp"]:
+        # temporaries in a sequential block are blocking: later statements see the new value
+        for _ in range(c.randint(1, 2)):
+          w = c.choice(WIDTHS[:14])
+          name = "t%d" % self.ntmp
+          self.ntmp += 1
+          st = ["tmp", name, self.expr(w, 2, env)]
+          env["tmps"][name] = w
+          if c.random() < 0.35:
+            st.append([name + "b"])
+            env["tmps"][name + "b"] = w
+          body.append(st)
       for (p, t, key) in group:
         e = self.value_expr(t, P["expr_depth"], env)
         if e is None:
@@ -846,7 +888,8 @@ class CompGen:
         nff += 1
     # seeded source order of the items (order.stmt)
     c.shuffle(self.items)
-    return {"signals": self.signals, "subs": self.subs, "frees": self.frees, "items": self.items}
+    return {"signals": self.signals, "subs": self.subs, "frees": self.frees, "items": self.items,
+            "funcs": self.funcs}
 
   def leafwise_default(self, path, t):
     out = []
